@@ -65,6 +65,20 @@ GEN_BODY = "INIT Init\nNEXT Next\nCONSTRAINT Emit\nCHECK_DEADLOCK FALSE\n"
 LIVE_BODY = "SPECIFICATION LiveSpec\nPROPERTY Answered\nPROPERTY Drain\nCHECK_DEADLOCK FALSE\n"
 
 
+def confirmed(wd, b, flags, tag):
+    """re-run one behaviour on its own, six times (one harness process); True if one of the runs shows one of the flags again.
+    (Steps that depend on real time -- the 10 ms expiry re-queue -- make some defects show in a fraction of the runs only.)"""
+    sub = os.path.join(wd, tag)
+    os.makedirs(sub, exist_ok=True)
+    vf.copy_specs(sub)
+    copies = [dict(b, t=i + 1, seed=b.get("seed", 1) * 10 + i) for i in range(6)]
+    try:
+        _, v2, _ = vf.replay_and_validate(sub, copies, "./server", "TestVFSchedReplay", ["server"], "Trace_Sched", go_timeout=900, tlc_timeout=600)
+    except vf.Inconclusive:
+        return False
+    return any(set(fl) & set(flags) for _, _, fl in v2["bad"])
+
+
 def liveness(wd, cov, quick):
     """C02's 'eventually': Answered and Drain under weak fairness on the repaired design (Sched.tla, LiveSpec).  Explicit
     unloads are left out and the channel capacity is >= the number of requests: with a smaller capacity the completed loop
@@ -179,6 +193,7 @@ def run(prop, tier="quick", seed=1, replay=None):
         known = vf.load_findings(prop)
         shown, other = {}, {}
         seen_t = set()
+        unconfirmed = []
         for ln, tid_s, flags in v["bad"]:
             fl = set(flags) & mine
             for f in set(flags) - mine:
@@ -191,10 +206,18 @@ def run(prop, tier="quick", seed=1, replay=None):
             if shown[key] > 2 or len(res.violations) >= 8:
                 continue
             b = beh.get(tid_s)
+            # a verdict needs a behaviour that misbehaves again when it is run on its own (the gated schedule is deterministic;
+            # quiescence windows are real time and the machine may be loaded): two more runs, at least one must show the flag again
+            if b is not None and not replay and not confirmed(wd, b, fl, f"confirm-{tid_s}"):
+                unconfirmed.append((tid_s, sorted(fl)))
+                continue
             p = vf.save_replay(prop, f"sched-{tier}-{seed}-{tid_s}.ndjson", json.dumps(b) + "\n")
             res.violation(f"{sorted(fl)} (config {b['cfg']['name'] if b else '?'}{', noise' if b and b['cfg']['noise'] else ''}): "
                           f"{json.dumps(recs[ln - 1])[:300]}", p)
-        cov["violating_traces"] = len(seen_t)
+        cov["violating_traces"] = len(seen_t) - len(unconfirmed)
+        cov["flagged_once_not_reproduced"] = [dict(t=t, flags=f) for t, f in unconfirmed]
+        for t, f in unconfirmed[:4]:
+            res.note(f"behaviour {t} showed {f} once and not in six isolated re-runs (timing of a loaded machine); not a verdict")
         cov["violation_kinds"] = {",".join(k): n for k, n in shown.items()}
         if other:
             res.note(f"flags of the sibling scheduler properties seen in this run (reported by their own checks): {other}")
